@@ -315,4 +315,221 @@ def kwS (kvs : List (Nat × Nat × Inherit.Val)) : SVal :=
 def selectByX (X : SCtx) (w : SW) (c : Nat) (connv : SVal) (kvs : List (Nat × Nat × Inherit.Val)) : CallRes SW :=
   PyIS.run (bIface X (.cls c)) selectByProg [connv, kwS kvs] w
 
+
+/-! ### `InheritableSQLObject._findAlternateID`, translated
+
+Additional interface: `cls.selectBy(connection, **{name: value})` : the TRANSLATED `selectBy` (`selectByX`), and `list(…)`
+of the select object it returns: the instances `InheritableIteration` delivers for the ids `ids` of the query's rows, in the
+order the database returns them (`ids` is a parameter; the theorems assume: its members are exactly the ids of the rows
+of the query): the most-derived instance `get` yields for that id through `cls`;  `inst.id` : the id. -/
+
+/-- the instance delivered for id `j` selected through class `c` on connection `k` -/
+def instVal (T : Tree) (db : DB) (k c j : Nat) : SVal :=
+  match get T db c j with
+  | .ok m => .inst k m j
+  | _ => .none
+
+def aAttrOf (X : SCtx) (w : SW) (v : SVal) (path : List String) : R SVal :=
+  match v with
+  | .inst _ _ j => if path = ["id"] then .ok (.nat j) else .stuck
+  | _ => bAttrOf X w v path
+
+def aCall (X : SCtx) (ids : List Nat) (w : SW) (recv : SVal) (m : String) (args : List SVal) (kw : List (String × SVal))
+    (star : SVal) : CallRes SW :=
+  match recv, args, star with
+  | .cls c, [connv], .cons (.pair (.name a k) (.int v)) .nil =>
+    if m = "selectBy" ∧ kw = [] then
+      (match selectByX X w c connv [(a, k, v)] with
+       | .ret w' _ =>
+         (match w'.made with
+          | some md => .ret w' (PyIS.Val.ofList (ids.map (instVal X.T (w'.cur md.conn) md.conn c)))
+          | none => .stuck)
+       | r => r)
+    else .stuck
+  | _, _, _ => bCall X w recv m args kw star
+
+def aIface (X : SCtx) (ids : List Nat) (self : SVal) : Iface SW :=
+  { bIface X self with
+    attrOf := aAttrOf X
+    call := aCall X ids }
+
+/-- `<cls c>._findAlternateID(<name of column k of a>, dbName, v, connection)` -/
+def findAltX (X : SCtx) (ids : List Nat) (w : SW) (c a k : Nat) (v : Inherit.Val) (connv : SVal) : CallRes SW :=
+  PyIS.run (aIface X ids (.cls c)) findAlternateIDProg [.name a k, .none, .int v, connv] w
+
+
+/-! ### `InheritableSQLObject.select`, translated (with its nested functions `_get_patched` / `_patch_id_clause`)
+
+SQL expressions are immutable VALUES here; `_patch_id_clause(clause)` changes the clause object in place in Python, the
+embedding writes the patched value back to the caller's local (`procCall`): the same thing as long as the clause object
+(and its sub-expressions) is not shared with another clause that is used afterwards — the hypothesis under which the
+theorems about `select` are stated.
+
+Additional interface: an `SQLOp` (`AND`, `OR`, a comparison, `IN`) has `expr1` / `expr2` (`sqlExpr1/2`; `SQLTrueClause` and
+`NOT x` — an `SQLPrefix` — are no `SQLOp`); a field `cls.q.<name>` has `tableName` / `fieldName`; `isinstance(v,
+sqlbuilder.SQLOp / sqlbuilder.Field / string_type)`; `cls.q.childName` : `.fldKind c`; `cls.sqlmeta.childName` : the name;
+`parentClass.select(clause, childUpdate=False, *args, **kwargs)` : the translated `select` itself at the parent class
+(`Calls`-style parameter, then the fuel iteration `selectN`); `super().select(clause, *args, **kwargs)` :
+`SQLObject.select` = `cls.SelectResultsClass(cls, clause, **kwargs)` = the translated `InheritableSelectResults.__init__`,
+returning the new select object.  `*args` is empty in the theorems. -/
+
+def sqlExpr1 : Sql → Option SVal
+  | .and x _ => some (.sql x)
+  | .or x _ => some (.sql x)
+  | .col a k _ _ => some (.fldCol a k)
+  | .idc a _ _ => some (.fldId a)
+  | .idEq a _ => some (.fldId a)
+  | .idIn a _ => some (.fldId a)
+  | .kind p _ => some (.fldKind p)
+  | _ => none
+
+def sqlExpr2 : Sql → Option SVal
+  | .and _ y => some (.sql y)
+  | .or _ y => some (.sql y)
+  | .col _ _ _ v => some (.int v)
+  | .idc _ _ v => some (.int v)
+  | .idEq _ b => some (.fldId b)
+  | .idIn _ ids => some (PyIS.Val.ofList (ids.map PyIS.Val.nat))
+  | .kind _ c => some (.kindName c)
+  | _ => none
+
+/-- `e.expr1 = x` (writing back the value it has changes nothing) -/
+def sqlSet1 (e : Sql) (x : SVal) : Option Sql :=
+  if sqlExpr1 e = some x then some e else sqlPut1 e x
+where sqlPut1 : Sql → SVal → Option Sql
+  | .and _ y, .sql x => some (.and x y)
+  | .or _ y, .sql x => some (.or x y)
+  | .idc _ op v, .fldId a => some (.idc a op v)
+  | .idEq _ b, .fldId a => some (.idEq a b)
+  | .idIn _ ids, .fldId a => some (.idIn a ids)
+  | _, _ => none
+
+def sqlSet2 (e : Sql) (x : SVal) : Option Sql :=
+  if sqlExpr2 e = some x then some e else sqlPut2 e x
+where sqlPut2 : Sql → SVal → Option Sql
+  | .and x _, .sql y => some (.and x y)
+  | .or x _, .sql y => some (.or x y)
+  | .idEq a _, .fldId b => some (.idEq a b)
+  | _, _ => none
+
+/-- attributes of SQL values -/
+def vAttrOf (v : SVal) (path : List String) : R SVal :=
+  match v with
+  | .sql e =>
+    if path = ["expr1"] then R.ofOpt (sqlExpr1 e) else if path = ["expr2"] then R.ofOpt (sqlExpr2 e) else .stuck
+  | .fldId a => if path = ["tableName"] then .ok (.tab a) else if path = ["fieldName"] then .ok (.str "id") else .stuck
+  | .fldCol a k =>
+    if path = ["tableName"] then .ok (.tab a) else if path = ["fieldName"] then .ok (.name a k) else .stuck
+  | .fldKind a =>
+    if path = ["tableName"] then .ok (.tab a) else if path = ["fieldName"] then .ok (.str "childName") else .stuck
+  | _ => .stuck
+
+def vIsinstance (v : SVal) (cls : String) : Option Bool :=
+  if cls = "sqlbuilder.SQLOp" then
+    (match v with
+     | .sql e => some (sqlExpr1 e).isSome
+     | _ => some false)
+  else if cls = "sqlbuilder.Field" then
+    (match v with
+     | .fldId _ => some true
+     | .fldCol _ _ => some true
+     | .fldKind _ => some true
+     | _ => some false)
+  else sIsinstance v cls
+
+def vUpd (v : SVal) (path : List String) (x : SVal) : Option SVal :=
+  match v with
+  | .sql e =>
+    if path = ["expr1"] then (sqlSet1 e x).map PyIS.Val.sql
+    else if path = ["expr2"] then (sqlSet2 e x).map PyIS.Val.sql else none
+  | _ => none
+
+/-- the interface the nested functions run against (they touch values only) -/
+def pIface (proc : String → List SVal → R (SVal × SVal)) : Iface Unit :=
+  { self := .none
+    attrOf := fun _ => vAttrOf
+    setAttrOf := fun _ _ _ _ => none
+    getattr := fun _ _ _ => .stuck
+    hasattr := fun _ _ _ => none
+    global := fun _ => none
+    isinstance := fun _ => vIsinstance
+    pure := fun _ _ _ _ => .stuck
+    call := fun _ _ _ _ _ _ => .stuck
+    callFn := fun _ _ _ _ _ => .stuck
+    super := fun _ _ _ _ _ => .stuck
+    fuel := fun _ => 0
+    proc := proc
+    updVal := vUpd }
+
+/-- the translated nested functions calling each other, `n` levels deep -/
+def cProc : Nat → String → List SVal → R (SVal × SVal)
+  | 0 => fun _ _ => .stuck
+  | n + 1 => fun f args =>
+    if f = "_get_patched" then PyIS.runProc (pIface (cProc n)) select_get_patched args ()
+    else if f = "_patch_id_clause" then PyIS.runProc (pIface (cProc n)) select_patch_id_clause args ()
+    else .stuck
+
+/-- what `_patch_id_clause` does to a clause: the id column of class `c` becomes the id column of `p`, in every
+    `SQLOp` reachable through `SQLOp`s (not below a `NOT`) -/
+def patchSql (c p : Nat) : Sql → Sql
+  | .and x y => .and (patchSql c p x) (patchSql c p y)
+  | .or x y => .or (patchSql c p x) (patchSql c p y)
+  | .idc a op v => .idc (if a = c then p else a) op v
+  | .idEq a b => .idEq (if a = c then p else a) (if b = c then p else b)
+  | .idIn a ids => .idIn (if a = c then p else a) ids
+  | e => e
+
+def sqlDepth : Sql → Nat
+  | .and x y => max (sqlDepth x) (sqlDepth y) + 1
+  | .or x y => max (sqlDepth x) (sqlDepth y) + 1
+  | _ => 0
+
+def cAttrOf (X : SCtx) (w : SW) (v : SVal) (path : List String) : R SVal :=
+  match v with
+  | .cls c =>
+    if path = ["q", "childName"] then .ok (.fldKind c)
+    else if path = ["sqlmeta", "childName"] then .ok (.kindName c)
+    else sAttrOf X w v path
+  | .conn _ => sAttrOf X w v path
+  | _ => vAttrOf v path
+
+/-- `SQLObject.select(cls, clause, **kwargs)`: the translated `InheritableSelectResults.__init__` on a new object -/
+def cSuper (X : SCtx) (self : SVal) (w : SW) (m : String) (args : List SVal) (kw : List (String × SVal)) (star : SVal) :
+    CallRes SW :=
+  match self, args with
+  | .cls c, [cl] =>
+    if m = "select" ∧ kw = [] then
+      (match selInitX X w c cl star with
+       | .ret w' _ => .ret w' (.ref 10 0)
+       | r => r)
+    else .stuck
+  | _, _ => .stuck
+
+/-- `<cls p>.select(clause, childUpdate=False, **kwargs)` -/
+def cCall (sel : SW → Nat → SVal → SVal → CallRes SW) (w : SW) (recv : SVal) (m : String) (args : List SVal)
+    (kw : List (String × SVal)) (star : SVal) : CallRes SW :=
+  match recv, args, kw with
+  | .cls p, [cl], [(n, .bool false)] =>
+    if m = "select" ∧ n = "childUpdate" then sel w p cl (PyIS.vdSet (.str "childUpdate") (.bool false) star) else .stuck
+  | _, _, _ => .stuck
+
+def cIface (X : SCtx) (sel : SW → Nat → SVal → SVal → CallRes SW) (n : Nat) (self : SVal) : Iface SW :=
+  { sIface X self with
+    attrOf := cAttrOf X
+    isinstance := fun _ => vIsinstance
+    call := cCall sel
+    super := cSuper X self
+    proc := cProc n
+    updVal := vUpd }
+
+/-- `<cls c>.select(clause, **kwargs)` (no positional extras) -/
+def selectX (X : SCtx) (sel : SW → Nat → SVal → SVal → CallRes SW) (n : Nat) (w : SW) (c : Nat) (clause kwargs : SVal) :
+    CallRes SW :=
+  PyIS.run (cIface X sel n (.cls c)) selectProg [clause, .nil, kwargs] w
+
+/-- the translated `select` calling itself at the parent class -/
+def selectN (X : SCtx) (n : Nat) : Nat → SW → Nat → SVal → SVal → CallRes SW
+  | 0 => fun _ _ _ _ => .stuck
+  | m + 1 => fun w c cl kw => selectX X (selectN X n m) n w c cl kw
+
 end SqlObjVerif.InhSel
